@@ -1,7 +1,8 @@
 import KrakenModel.Model.Retry
 /-
   Model of a build-index node's tag path (C32):
-    build-index/tagserver/server.go   putTag (dependency Stat loop, then store.Put), getTagHandler
+    build-index/tagserver/server.go   putTag (dependency Stat loop, then store.Put), getTagHandler,
+                                      duplicatePutTagHandler (store.Put with a delay, no checks), replicateTag
     build-index/tagstore/store.go     Put (disk file, first write wins; persist flag; write-through =
                                       SyncExec, otherwise Manager.Add), Get (disk first, then backend)
     lib/persistedretry/writeback/executor.go   Exec on a tag (Stat short-cut, upload of the disk file)
@@ -35,6 +36,7 @@ structure State where
 
 inductive Op where
   | put (t : Tag) (d : Digest) (deps : List DepRes) (ups : List Bool)
+  | dupPut (t : Tag) (d : Digest) (delay : Nat) (ups : List Bool)   -- duplicatePutTagHandler (from a neighbour)
   | get (t : Tag) (up : Bool)
   | retry (o : Retry.Op)
   | exec (t : Tag) (up : Bool)
@@ -86,20 +88,32 @@ def ins (l : List Nat) (x : Nat) : List Nat := if x ∈ l then l else l ++ [x]
 def del (l : List Nat) (x : Nat) : List Nat := l.filter (· ≠ x)
 def erase (m : List (Tag × Digest)) (t : Tag) : List (Tag × Digest) := m.filter (·.1 ≠ t)
 
+/-- `tagstore.Put(tag, d, delay)`: disk file (first write wins), persist flag, then write-through
+(`SyncExec`) or `Manager.Add` of a write-back task with `delay` (a delayed task is stored as failed and
+picked up by the poll pass once it is ready) -/
+def putStore (s : State) (t : Tag) (d : Digest) (delay : Nat) (ups : List Bool) : State × Out :=
+  let s1 := { s with disk := writeDisk s.disk t d, persist := ins s.persist t, putFor := s.putFor ++ [(t, d)] }
+  if s.writeThrough then
+    match syncExec s1.disk t 3 ups s1.backend with
+    | (true, b') => ({ s1 with backend := b', persist := del s1.persist t, okPut := ins s1.okPut t }, .ok)
+    | (false, b') => ({ s1 with backend := b' }, .storageErr)
+  else
+    match Retry.stepO s1.r (.addBegin t delay []) with
+    | (_, .closed) => (s1, .storageErr)
+    | (r1, _) => ({ s1 with r := Retry.step r1 (.addEnq t), okPut := ins s1.okPut t }, .ok)
+
+/-- `replicateTag` after an acknowledged `PUT ?replicate=true`: one replication task per matching remote,
+carrying the dependency list that was just checked (the C33 task) -/
+def replicationTasks (o : Out) (t : Tag) (d : Digest) (deps : List Digest) (dests : List Nat) :
+    List (Tag × Digest × List Digest × Nat) :=
+  if o = .ok then dests.map fun r => (t, d, deps, r) else []
+
 def stepO (s : State) : Op → State × Out
   | .put t d deps ups =>
     match checkDeps deps with
-    | .ok =>
-      let s1 := { s with disk := writeDisk s.disk t d, persist := ins s.persist t, putFor := s.putFor ++ [(t, d)] }
-      if s.writeThrough then
-        match syncExec s1.disk t 3 ups s1.backend with
-        | (true, b') => ({ s1 with backend := b', persist := del s1.persist t, okPut := ins s1.okPut t }, .ok)
-        | (false, b') => ({ s1 with backend := b' }, .storageErr)
-      else
-        match Retry.stepO s1.r (.addBegin t 0 []) with
-        | (_, .closed) => (s1, .storageErr)
-        | (r1, _) => ({ s1 with r := Retry.step r1 (.addEnq t), okPut := ins s1.okPut t }, .ok)
+    | .ok => putStore s t d 0 ups
     | o => (s, o)
+  | .dupPut t d delay ups => putStore s t d delay ups
   | .get t up =>
     match lookup s.disk t with
     | some d => (s, .digest d)
